@@ -54,3 +54,9 @@ func (h *LockHook) Acquire(m *simsync.RWMutex, write bool) {
 
 // Release implements simsync.Hooks.
 func (h *LockHook) Release(*simsync.RWMutex, bool) {}
+
+// Point implements simsync.Hooks: a scheduling point.
+func (h *LockHook) Point(name string) {
+	h.S.Probe("scheduling-point/" + name)
+	h.S.Yield(h.Proc(), "point", name, nil, nil)
+}
